@@ -66,6 +66,30 @@ def rule_e9_polarity(ctx):
             bl = set()
         else:
             bl = loops[0][1]
+        # the traversal is never restarted: the iterator being polled is not re-assigned once polling has begun
+        ip = Y.arg_path(0)
+        if ip is not None:
+            ikey = ip.strip_refs().key()
+            for loc2, st2 in b.all_assigns():
+                if b.is_cleanup(loc2.bb):
+                    continue
+                if st2["place"]["proj"]:
+                    q = b.expand(st2["place"], alias=True)
+                    same = q.strip_refs().key() == ikey
+                else:
+                    same = st2["place"]["local"] == ip.root and not ip.fields()
+                if not same:
+                    continue
+                if loc2.bb in bl or (ip.fields() and 1 <= ip.root <= b.arg_count):
+                    why.append("the iterator over the elements is re-created at %s while the traversal is in progress: elements already visited are visited again" % b.where(loc2))
+            for c2 in ctx.calls(b):
+                if c2.dest is not None and not b.is_cleanup(c2.loc.bb) and c2.loc.bb in bl:
+                    if c2.dest["proj"]:
+                        hit = b.expand(c2.dest, alias=True).strip_refs().key() == ikey
+                    else:
+                        hit = c2.dest["local"] == ip.root and not ip.fields()
+                    if hit:
+                        why.append("the iterator over the elements is re-created at %s while the traversal is in progress" % c2.where())
         # predicate gets the yielded element
         s, _ = b.slice_back(P.loc, P.args[1:])
         if Y.loc not in s:
